@@ -20,6 +20,6 @@ def install(kind=Str, prop=Str, text=Str):
         invariant=["implies(has_class(self, 'Statement'), self._st_type is not None)",
                    "implies(is_int(self._cardinality), card_val(self._cardinality) >= 1)"])
     Shape = schema("Shape", ["shexer.model.shape:Shape"],
-        {"_name": Str, "_class_uri": Str, "_statements": List(Statement), "_n_instances": Int,
-         "_n_direct_statements": Int, "_n_inverse_statements": Int})
+        {"_name": kind, "_class_uri": kind, "_statements": List(Statement), "_n_instances": Int,
+         "_n_direct_statements": Int, "_n_inverse_statements": Int, "_sorting_callback": "ignored"})
     return {"FreqSer": FreqSer, "StSer": StSer, "Statement": Statement, "Shape": Shape}
